@@ -33,7 +33,8 @@ CONSTANTS MaxLen,       \* longest stream
           MaxJ,         \* at most MaxJ jumbo events
           Strict,       \* TRUE: OU[ only outside a region, OU] only inside
           JumboInside,  \* TRUE: jumbo events only inside regions
-          Variant       \* "code" = ovnisort.c; others are deliberately wrong
+          Variant,      \* "code" = ovnisort.c; others are deliberately wrong
+          ExportUnspecLen  \* export trivial / unspecified streams only up to this length
 
 -----------------------------------------------------------------------------
 (*                            PROPERTY  LAYER                              *)
@@ -77,16 +78,16 @@ PrefixUntouched(in, out) ==
 
 (* Unsorted regions (doc/user/runtime/kernel.md): a region is opened by the
    first OU[ that is not inside a region and closed by the first OU] after
-   it; an OU[ inside a region and an OU] outside are ordinary events.      *)
-FirstAt(s, from, kind) ==
-   LET S == {i \in from..Len(s) : s[i].k = kind} IN IF S = {} THEN 0 ELSE MinOf(S)
-RECURSIVE RegionsFrom(_, _)
-RegionsFrom(s, from) ==
-   LET b == FirstAt(s, from, "b") IN
-   IF b = 0 THEN {}
-   ELSE LET e == FirstAt(s, b + 1, "e") IN
-        IF e = 0 THEN {} ELSE {<<b, e>>} \cup RegionsFrom(s, e + 1)
-Regions(s) == RegionsFrom(s, 1)            \* closed regions <<open, close>>
+   it; an OU[ inside a region and an OU] outside are ordinary events.  After
+   any OU] we are outside, so: an OU] closes a region iff there is an OU[
+   between the previous OU] (or the start) and it; the first such OU[ opens
+   the region.  (Declarative; stream_winsort's automaton is checked to agree
+   with it by the invariant RegionAgree.)                                  *)
+Regions(s) ==                               \* closed regions <<open, close>>
+   LET Es == {i \in DOMAIN s : s[i].k = "e"}
+       prev(e) == LET P == {x \in Es : x < e} IN IF P = {} THEN 0 ELSE MaxOf(P)
+       Bs(e) == {i \in (prev(e) + 1)..(e - 1) : s[i].k = "b"}
+   IN {<<MinOf(Bs(e)), e>> : e \in {x \in Es : Bs(x) # {}}}
 Inside(s) == UNION {(r[1] + 1)..(r[2] - 1) : r \in Regions(s)}
 
 (* Precondition 1: the only out-of-order events lie strictly inside closed
@@ -326,7 +327,16 @@ EmuShape(q) ==       \* first event can be OHx, last can be OHe
    /\ \A i \in DOMAIN q : q[1].clk <= q[i].clk /\ q[i].clk <= q[Len(q)].clk
 \* streams worth a replay on the real tool: they end where a sort plan has just
 \* been executed (or an empty region closed), or they can be fed to ovniemu
-ExportSel == in'[Len(in')].k = "e" \/ EmuShape(in') \/ Len(in') <= 2
+NonEmptyRegions(q) == {r \in Regions(q) : r[2] > r[1] + 1}
+ExportSel ==
+   LET e == Expected(in', s'.n)
+       L == Len(in')
+   IN /\ in'[L].k = "e" \/ EmuShape(in') \/ L <= 2
+      /\ \/ e = "sorted" /\ NonEmptyRegions(in') # {} /\ FirstMoved(in') <= L
+         \/ e = "sorted" /\ NonEmptyRegions(in') # {} /\ L <= ExportUnspecLen + 2
+         \/ e = "mayfail" /\ L <= ExportUnspecLen + 1
+         \/ e = "mayfail" /\ L <= ExportUnspecLen + 2 /\ s'.n >= 4
+         \/ L <= ExportUnspecLen
 Export ==
    ExportSel =>
    PrintT(<<"TR", ToJson([n |-> s'.n,
@@ -335,7 +345,9 @@ Export ==
                           exp |-> Expected(in', s'.n),
                           order |-> Ids(StableSort(in')),
                           fm |-> FirstMoved(in'),
+                          nreg |-> Cardinality(NonEmptyRegions(in')),
                           impl |-> Outcome(s'),
+                          isorted |-> Sorted(s'.buf),
                           iorder |-> Ids(s'.buf),
                           emu |-> EmuShape(in')])>>)
 =============================================================================
